@@ -152,7 +152,17 @@ def check(run):
     tmp = tempfile.mkdtemp(prefix="c16_", dir="/dev/shm" if os.path.isdir("/dev/shm") else None)
     try:
         reloaded = []
+        used = 0
         for sp in sps:
+            # a third of the species have been USED before they are saved (partition functions, energies, a collision integral evaluated):
+            # saving must not depend on the object's history
+            if rng.random() < 0.35:
+                try:
+                    derived(sp, gen.log_uniform(rng, 300, 30000))
+                    sp.total_partition_function(1.0, 5000.0, 0.0)
+                    used += 1
+                except Exception:  # noqa: BLE001
+                    pass
             try:
                 sp2 = roundtrip(sp, tmp)
                 err = None
@@ -166,7 +176,12 @@ def check(run):
             cmds, encs = [], []
             for sp in sps:
                 e = Enc()
-                cmds.append("saveload " + " ".join(e.val(dict(sp.__dict__))))
+                try:
+                    cmds.append("saveload " + " ".join(e.val(dict(sp.__dict__))))
+                except TypeError:
+                    # the object's __dict__ holds something that is not JSON-representable data (e.g. a cache attached by a method call):
+                    # the model sees the constructor data only; the property test below reports the object
+                    cmds.append("saveload " + " ".join(Enc().val({})))
                 encs.append(e)
             outs = common.run_driver("models", cmds)
             dis = 0
@@ -181,6 +196,7 @@ def check(run):
                     dis += 1
                     if dis == 1:
                         broken.append({"stage": "correspondence", "detail": {"species": repr(sp)[:600], "impl_error": err, "model": " ".join(o)[:600]}})
+            run.cov["species_used_before_saving"] = used
             run.cov["traces_validated_against_impl"] = len(sps)
             run.cov["correspondence_disagreements"] = dis
         # V/F: the property itself
@@ -205,7 +221,8 @@ def check(run):
                 except ZeroDivisionError:
                     pass
             if bad and found is None:
-                found = {"kind": "input", "what": bad, "species_dict": json.loads(json.dumps(sp.__dict__)), "class": type(sp).__name__}
+                found = {"kind": "input", "what": bad, "species_dict": json.loads(json.dumps(sp.__dict__, default=lambda v: v.tolist() if hasattr(v, "tolist") else repr(v))),
+                         "class": type(sp).__name__, "history": "the species had been used (partition function / energy / collision integral evaluated) before it was saved"}
             run.sample({"class": type(sp).__name__, "fields": list(sp.__dict__.keys()), "ecs": repr(sp.electron_cross_section)[:60]}, cap=3)
         # from_name == from_file(database path)
         for nm in gen.SHIPPED:
